@@ -39,7 +39,7 @@ func init() {
 			"wants-old-data => the long-term stores were consulted; document i is the document of ID i, or empty, and not empty when its store's stream was flawless. " +
 			"non-trivial = at least one shard answered and at least one fault was injected; distinct = (topology, behaviour assignment)",
 		Assumptions: []string{"fake stores answer instantly and ignore cancellation; when several shards return different special codes the order in which the proxy sees them is scheduler-dependent and either documented outcome is accepted"},
-		Batches:     tiered(16, 128),
+		Batches:     tiered(32, 192),
 		Run:         runC16,
 		Timeout:     timeoutFor(8*time.Minute, 40*time.Minute),
 	})
@@ -183,10 +183,7 @@ var c16FetchAlpha = []string{"ok", "err", "break", "missing", "extra", "reordere
 
 func runC16(w *h.W, batch int) {
 	r := w.Rng()
-	nb := 16
-	if !w.Quick() {
-		nb = 128
-	}
+	nb := nbOf("C16", w.Tier)
 	corp := gen.MakeCorpus(r, gen.CorpusOpt{N: r.Range(20, 120), Vocab: 3, MIDSpread: r.LogInt(3, 200), MaxToks: 1, Tag: fmt.Sprintf("b%d", batch)})
 	// exhaustive over the search alphabet
 	small := []c16Topo{{1, 1, 0, 0}, {1, 2, 0, 0}, {2, 1, 0, 0}, {2, 2, 0, 0}, {1, 1, 1, 1}, {2, 1, 1, 1}, {1, 2, 1, 1}, {2, 2, 1, 1}}
